@@ -154,13 +154,24 @@ class FoldInterp:
             if isinstance(e.op, ast.Div) and isinstance(r, Fraction):
                 return self.scale(l, 1 / r)
             raise AnalysisError('%s: unsupported arithmetic %s' % (self.fn.name, ast.unparse(e)))
-        if isinstance(e, ast.Compare):
-            t = ast.unparse(e).replace(' ', '')
-            if t in ('total_per_entry>int(total_samples/2)',):
-                return Boo({'K': (False,) * 4, 'A': (False,) * 4, 'O': (True,) * 4})
-            if t in ('total_per_entry==total_samples/2.0', 'total_per_entry==total_samples/2'):
-                return Boo({'K': (False,) * 4, 'A': (True,) * 4, 'O': (False,) * 4})
-            raise AnalysisError('%s: unsupported comparison %s' % (self.fn.name, ast.unparse(e)))
+        if isinstance(e, ast.Compare) and len(e.ops) == 1:
+            # cell-class predicates: the allele total of an entry against half the total sample size
+            l, r = ast.unparse(e.left).replace(' ', ''), ast.unparse(e.comparators[0]).replace(' ', '')
+            op = type(e.ops[0]).__name__
+            flip = {'Lt': 'Gt', 'Gt': 'Lt', 'LtE': 'GtE', 'GtE': 'LtE', 'Eq': 'Eq', 'NotEq': 'NotEq'}
+            if r == 'total_per_entry':
+                l, r, op = r, l, flip[op]
+            if l == 'total_per_entry' and r in ('total_samples/2', 'total_samples/2.0', '0.5*total_samples', 'total_samples*0.5'):
+                table = {'Lt': 'K', 'LtE': 'KA', 'Eq': 'A', 'GtE': 'AO', 'Gt': 'O', 'NotEq': 'KO'}[op]
+            elif l == 'total_per_entry' and r in ('int(total_samples/2)', 'total_samples//2', 'int(total_samples/2.0)'):
+                # floor(T/2): `>` selects the folded-out cells and `<=` their complement for either parity of T; the other
+                # comparisons select different cells for odd and even T
+                table = {'Gt': 'O', 'LtE': 'KA'}.get(op)
+                if table is None:
+                    raise AnalysisError('%s: comparison %s selects parity-dependent cells' % (self.fn.name, ast.unparse(e)))
+            else:
+                raise AnalysisError('%s: unsupported comparison %s' % (self.fn.name, ast.unparse(e)))
+            return Boo({c: (c in table,) * 4 for c in CLASSES})
         if isinstance(e, ast.Call):
             f = dotted(e.func) or ''
             last = f.split('.')[-1]
@@ -404,6 +415,14 @@ def check_likelihood_guards(rep, prog):
         first = stm[0]
         ok = isinstance(first, ast.If) and ast.unparse(first.test) == "hasattr(data, 'folded') and data.folded and (not model.folded)" and ast.unparse(first.body[0]) == 'model = model.fold()' and not first.orelse
         rep.ob('R-TPL', 'Inference.%s auto-fold' % q, ok, ast.unparse(first)[:110], im.rel, first.lineno, what='model folded against folded data before anything else')
+    # after the auto-fold, mixing a folded with an unfolded spectrum is refused by the Spectrum operators - but only if both
+    # arguments take part in the arithmetic as whole spectra at least once (`.data` bypasses the operators and the masks)
+    from rules.c11 import mask_sources
+    fn = prog.func('dadi.Inference', 'll_per_bin')
+    res = [s for s in fn.body if isinstance(s, ast.Assign) and ast.unparse(s.targets[0]) == 'result']
+    ms = mask_sources(res[0].value, {'model': {'model'}, 'data': {'data'}}) if len(res) == 1 else set()
+    rep.ob('R-MASK', 'Inference.ll_per_bin whole-spectrum operands', ms >= {'model', 'data'}, 'whole-spectrum operands reaching the result: %s' % sorted(ms), im.rel,
+           res[0].lineno if res else fn.lineno, what='both spectra enter the likelihood through the guarded Spectrum operators (folding equality checked, masks united)')
 
 
 def run(rep, prog, tier):
